@@ -148,7 +148,9 @@ fn twins(ctx: &mut Ctx) {
                 }
                 before.push(row);
             }
-            // optimise the live blocker and ask everything again
+            // optimise the live blocker and ask everything again; then optimise the already
+            // optimised blocker once more (idempotence: fused rules take part in a second fusion)
+            for pass in 0..2 {
             blocker.optimize();
             for (ti, tags) in tagsets.iter().enumerate() {
                 blocker.use_tags(tags);
@@ -164,7 +166,7 @@ fn twins(ctx: &mut Ctx) {
                         out.push(Ev::Tie);
                     } else if !now.same_verdict(prev) {
                         out.push(Ev::Diff {
-                            kind: "live-optimize",
+                            kind: if pass == 0 { "live-optimize" } else { "live-optimize-twice" },
                             detail: json!({"rules": rules, "tags": tags, "url": q.url, "source": q.source, "type": q.rtype,
                                 "before_optimize": prev.to_json(), "after_optimize": now.to_json()}),
                         });
@@ -172,6 +174,7 @@ fn twins(ctx: &mut Ctx) {
                         out.push(Ev::Ok { nt: false, h: 0, sample: json!(null), by_fused: false });
                     }
                 }
+            }
             }
             (out, fused)
         });
